@@ -196,7 +196,7 @@ def plan(tier):
     parts = 6 if tier == 'quick' else 12
     specs = [{'kind': 'punct', 'part': i, 'parts': parts} for i in range(parts)]
     k = 8 if tier == 'quick' else 16
-    specs += [{'kind': 'hyp', 'n': 700 if tier == 'quick' else 40000, 'k': i} for i in range(k)]
+    specs += [{'kind': 'hyp', 'n': 3000 if tier == 'quick' else 40000, 'k': i} for i in range(k)]
     return specs
 
 
